@@ -120,7 +120,8 @@ def _one_path(world, ex, con, fsrc, case, rets, raises, out):
         if d is not None:
             defaults[p.arg] = d
     for d in case:
-        if d not in names and d not in (con.closure or {}) and d not in con.ghost and d != fsrc.vararg and d != fsrc.kwarg:
+        if d not in names and d not in (con.closure or {}) and d not in con.ghost and d != fsrc.vararg and d != fsrc.kwarg \
+                and not con.region:
             raise ContractError("case names parameter %r which %s does not have" % (d, fsrc.qualname))
     for i, p in enumerate(names):
         desc = case.get(p)
@@ -149,6 +150,10 @@ def _one_path(world, ex, con, fsrc, case, rets, raises, out):
         dd = case.get(n, d)
         clos[n] = dd.fresh(ex, n)
     frame = Frame(fsrc, env, contract=con, closure=clos)
+    if con.region:
+        for nm, d in case.items():
+            if nm not in names and nm != "__use_defaults__":
+                frame.env[nm] = d.fresh(ex, nm)       # a local variable the region reads
     for g, d in con.ghost.items():
         frame.env[g] = case.get(g, d).fresh(ex, g)
     if con.setup:
@@ -164,6 +169,10 @@ def _one_path(world, ex, con, fsrc, case, rets, raises, out):
     ex.pre_params = pre_params
     ex.cur_spec_frame = _spec_frame(frame, pre_params)
     n_req = len(ex.pc)
+    if con.region:
+        _run_region(ex, con, fsrc, frame, out)
+        ex.all_callees |= ex.used_callees
+        return
     try:
         value, retnode = ex.run_body(frame)
     except PyExc as pe:
@@ -171,6 +180,57 @@ def _one_path(world, ex, con, fsrc, case, rets, raises, out):
     else:
         _return_exit(world, ex, con, fsrc, frame, value, retnode, rets, pre_params, out)
     ex.all_callees |= ex.used_callees
+
+
+def _find_loop_block(fnode, ordinal):
+    n = [0]
+
+    def walk(block):
+        for i, st in enumerate(block):
+            if isinstance(st, (ast.For, ast.While)):
+                if n[0] == ordinal:
+                    return block, i
+                n[0] += 1
+            for fld in ("body", "orelse", "finalbody"):
+                sub = getattr(st, fld, None)
+                if isinstance(sub, list) and sub and not isinstance(st, (ast.FunctionDef, ast.AsyncFunctionDef, ast.ClassDef)):
+                    r = walk(sub)
+                    if r:
+                        return r
+            for h in getattr(st, "handlers", []) or []:
+                r = walk(h.body)
+                if r:
+                    return r
+        return None
+    return walk(fnode.body)
+
+
+def _run_region(ex, con, fsrc, frame, out):
+    """execute only `lead` statements + one loop of the function, from an arbitrary state of the declared
+    variables: every obligation generated there (invariant, variant) holds for the real loop whatever
+    the rest of the function does, PROVIDED the region reads nothing but the declared variables."""
+    reg = con.region
+    found = _find_loop_block(fsrc.node, reg["loop"])
+    if not found:
+        raise ContractError("region: loop #%s not found in %s" % (reg["loop"], fsrc.qualname))
+    block, idx = found
+    lead = reg.get("lead", 0)
+    stmts = block[max(0, idx - lead): idx + 1]
+    ex.frames.append(frame)
+    try:
+        try:
+            ex.exec_block(stmts, frame)
+        except PyExc as pe:
+            out.covers[(ex.case_name, "region-raise:%s" % pe.exc.cls.name)] = True
+            return
+        except Exception as e:
+            from .exec import ReturnSig
+            if isinstance(e, ReturnSig):
+                return
+            raise
+        out.covers[(ex.case_name, "region-end")] = True
+    finally:
+        ex.frames.pop()
 
 
 def _spec_frame(frame, pre_params):
